@@ -59,6 +59,8 @@ type Snap struct {
 	Name    string
 	User    bool
 	Removed bool
+	Folded  bool    // the coalesce step of its deletion has run (its blocks were copied into the parent); not yet unlinked
+	Deduped bool    // ... and a preload with reclamation on has run since (it treats the parent's fresh copies as duplicates)
 	Img     []uint8 // per-sector tag of the volume image captured
 	Parent  string  // model parent name ("" for base)
 }
